@@ -15,7 +15,7 @@ ID = 'C20'
 LEVEL = 'exploration'
 RUNS = {'quick': 40000, 'thorough': 800000}
 CHUNK = 100
-PROBES = ['long_window', 'fault_no_nested', 'fault_first_decoded', 'fault_first_undecoded', 'fault_two_decoded_kinds', 'fault_failed_result',
+PROBES = ['consumer_edits_returned_traces', 'long_window', 'fault_no_nested', 'fault_first_decoded', 'fault_first_undecoded', 'fault_two_decoded_kinds', 'fault_failed_result',
           'fault_other_thread_real_fault_between', 'launch_empty', 'launch_unsorted_maps', 'launch_equal_addresses',
           'launch_shared_cache', 'launch_unrelated_inside', 'sample_flag_without_record', 'sample_record_without_flag',
           'sample_both', 'sample_neither', 'lost_nested_record', 'nested_composite_in_composite']
@@ -141,13 +141,26 @@ def generate(rng, index, tier):
         for _ in range(rng.randint(1, 2)):
             faults.append({'k': 'drop', 'at': rng.randrange(max(1, total))})
     return {'threads': threads, 'schedule': sched, 'faults': faults, 'tsmode': worlds.draw_tsmode(rng), 'earlier_other': rng.chance(0.15),
-            'tmap': rng.chance(0.4)}
+            'tmap': rng.chance(0.4), 'consumer_edits': rng.chance(0.2)}
 
 
 def _prot(bits):
     """The protection bits of THAT record, rendered by the tool's own flag decoder (how bits map to names is C11's
     subject; which record they come from is this property's)."""
     return sorted(p.value for p in tool.mach.to_vm_prot(bits))
+
+
+def _consume(t, depth=0):
+    """A consumer that uses a returned trace up: every list / dict it carries is emptied in place."""
+    import dataclasses
+    if not dataclasses.is_dataclass(t) or depth > 2:
+        return
+    for f in dataclasses.fields(t):
+        v = getattr(t, f.name, None)
+        if isinstance(v, (list, dict, set)):
+            v.clear()            # (the records and traces it held are left as they are: other windows hold the same records)
+        else:
+            _consume(v, depth + 1)
 
 
 def execute(scn):
@@ -182,7 +195,13 @@ def execute(scn):
 
     def bad(tag, sig, detail):
         viols.append({'tag': tag, 'sig': sig, 'detail': detail})
+    t = None
+    if scn.get('consumer_edits'):
+        bump('fault:consumer_edits_results')
+        bump('probe:consumer_edits_returned_traces')
     for i, (r, ev) in enumerate(zip(stream, events)):
+        if t is not None and scn.get('consumer_edits'):
+            _consume(t)          # the caller has used the previous trace up (its lists emptied in place): the results are the caller's
         name = table.get(r['id'])
         domain = 'trace' if name in tool.TRACE_DOMAIN_NAMES else 'ord'
         exp = m.feed(i, r['t'], r['id'], r['q'], domain)
